@@ -49,8 +49,8 @@ func (ca *Cache) WithCacheSize(cacheSize uint32) *Cache {
 // Add implements the Memory interface.
 func (ca *Cache) Add(key string, value string, sizeLimit uint16) error {
 	if sizeLimit > 0 {
-		l := uint16(len(value))
-		if l > sizeLimit {
+		l := len(value)
+		if l > int(sizeLimit) {
 			return fmt.Errorf("value length %v exceeds value size limit %v", l, sizeLimit)
 		}
 	}
@@ -91,8 +91,8 @@ func (ca *Cache) ReservedSize(key string) (uint16, error) {
 func (ca *Cache) Update(key string, value string) error {
 	sizeLimit := ca.Sizes[key]
 	if ca.Sizes[key] > 0 {
-		l := uint16(len(value))
-		if l > sizeLimit {
+		l := len(value)
+		if l > int(sizeLimit) {
 			return fmt.Errorf("update value length %v exceeds value size limit %v", l, sizeLimit)
 		}
 	}
